@@ -544,7 +544,8 @@ def run(ctx):
     q = ctx.quick
     cap = ctx.budget
     if ctx.wants('core'):
-        cs = core_cases(GRIDS[:2] if q else GRIDS, MODELS[:2] if q else MODELS)
+        cs = core_cases(GRIDS[:2] if q else GRIDS,
+                        [MODELS[0], MODELS[1], MODELS[3]] if q else MODELS)
         ctx.explore('core', FN, cs, engine='E1',
                     rule='full product cycle x sslsolver x semicoarsening x '
                          'linerelaxation (1120 configs incl. the invalid '
